@@ -34,6 +34,9 @@ func (interp *Interpreter) importSrc(rPath, importPath string, skipTest bool) (s
 			rPath = "."
 		}
 		dir = filepath.Join(filepath.Dir(interp.name), rPath, importPath)
+	} else if i := strings.LastIndex("/"+importPath, "/vendor/"); i >= 0 {
+		// As for the go tool, a vendored package is imported by its path below the vendor directory.
+		return "", fmt.Errorf("must be imported as %s", importPath[i+len("vendor/"):])
 	} else if dir, rPath, err = interp.pkgDir(interp.context.GOPATH, rPath, importPath); err != nil {
 		// Try again, assuming a root dir at the source location.
 		if rPath, err = interp.rootFromSourceLocation(); err != nil {
